@@ -276,33 +276,72 @@ Section Sort.
       end
     end.
 
+  (* x == y through the order (no NaN, no -0.0) *)
+  Definition eqv (x y : V) : bool := leb x y && leb y x.
+
+  (* the pivot-is-maximum rule (fix "parallel quicksorts ... pivot is the segment maximum"):
+       l = 0; while (l < rightwall) { if (array[l] == pivot) { rightwall--; SWAP(array, l, rightwall); } else l++; }
+     moves every element equal to the pivot to the end; returns the array and the new rightwall *)
+  Fixpoint movepiv (fuel : nat) (a : arr) (b : N) (pivot : V) (l rw : N) : option (arr * N) :=
+    match fuel with
+    | O => None
+    | S f =>
+      if l <? rw then
+        if eqv (aget a (b + l)) pivot then
+          match aswap_c a (b + l) (b + (rw - 1)) with
+          | None => None
+          | Some a' => movepiv f a' b pivot l (rw - 1)
+          end
+        else movepiv f a b pivot (l + 1) rw
+      else Some (a, rw)
+    end.
+
+  (* one call of *_qsort_inner up to the two forks: tri-median, parallel partition passes, sequential fix-up and
+     (newrule) the pivot-is-maximum rule.  Returns the array, the final rightwall (= length of the left part) and
+     pivots_done.  newrule = false is the code before the fix (kept for the regression examples). *)
+  Definition qsort_node (newrule : bool) (wfuel : nat) (a : arr) (b len : N) : option (arr * N * bool) :=
+    match trimedian a b len with
+    | None => None
+    | Some a1 =>
+      let pivot := aget a1 (b + len / 2) in
+      match walls wfuel a1 b (p_thresh P len) pivot 0 (len - 1) with
+      | None => None
+      | Some (a2, lwall, rwall) =>
+        match fixup a2 b len pivot lwall rwall with
+        | None => None
+        | Some (a3, rw) =>
+          if newrule && (rw =? len) then
+            match movepiv (S (S (N.to_nat len))) a3 b pivot 0 rw with
+            | None => None
+            | Some (a4, rw') => Some (a4, rw', true)
+            end
+          else Some (a3, rw, false)
+        end
+      end
+    end.
+
   (* *_qsort_inner on the segment [b, b+len); the two recursive calls work on disjoint segments (forked in
      the code), the model runs left then right *)
-  Fixpoint qsort_inner (fuel wfuel : nat) (a : arr) (b len : N) : option arr :=
+  Fixpoint qsort_inner_gen (newrule : bool) (fuel wfuel : nat) (a : arr) (b len : N) : option arr :=
     match fuel with
     | O => None
     | S f =>
       if p_small P len then (if b + len <=? bound then Some (base_sort a b len) else None)
       else
-        match trimedian a b len with
+        match qsort_node newrule wfuel a b len with
         | None => None
-        | Some a1 =>
-        let pivot := aget a1 (b + len / 2) in
-        match walls wfuel a1 b (p_thresh P len) pivot 0 (len - 1) with
-        | None => None
-        | Some (a2, lwall, rwall) =>
-          match fixup a2 b len pivot lwall rwall with
+        | Some (a3, rw, pivots_done) =>
+          match (if 0 <? rw then qsort_inner_gen newrule f wfuel a3 b rw else Some a3) with
           | None => None
-          | Some (a3, rw) =>
-            match (if 0 <? rw then qsort_inner f wfuel a3 b rw else Some a3) with
-            | None => None
-            | Some a4 =>
-              if (0 <? len - rw) && (rw <? len) then qsort_inner f wfuel a4 (b + rw) (len - rw) else Some a4
-            end
+          | Some a4 =>
+            if negb pivots_done && (0 <? len - rw) && (rw <? len)
+            then qsort_inner_gen newrule f wfuel a4 (b + rw) (len - rw) else Some a4
           end
         end
-        end
     end.
+
+  Definition qsort_inner := qsort_inner_gen true.
+  Definition qsort_inner_old := qsort_inner_gen false.
 
   (* ------------------------------------------------------------------ qutil_mergesort *)
   (* for (k = ss-1; k >= fs; k--) { a[k+1] = a[k]; if (k == 0) break; }   shifts [fs, ss) right by one *)
